@@ -38,8 +38,10 @@ PROPS["C05"] = {
                # without the race detector (a scan that misses a signature whose add has returned is C05's clause too)
                {"name": "concurrent", "timeout": 3000}],
     "also": ["C11"],
-    "required_theorems": ["C05_self_match", "C05_found_in_alerts", "C05_found_exact_json"],
-    "level_text": "Kernel-checked: MatchSignature(t, IndexFunction(t)) has confidence exactly 1 for every topology, hash value and default tolerance, hence the indexed signature is reported by the alert pipeline of either backend at every threshold <= 1 and by JSON exact mode. Tie: IndexFunction, GenerateTopologyHash (model SHA-256), GenerateFuzzyHash, MatchSignature differential; self-match evaluated on the real code for every generated topology; the concurrent stress of C11 (one writer, scanning goroutines, the writer scanning for what it has just written) is run for this property too: a scan that misses a signature whose add has returned breaks 'found again'.",
+    "lean_modules": ["SfwModel.Props.C05", "SfwModel.Props.C05Pipeline"],
+    "required_theorems": ["C05_self_match", "C05_found_in_alerts", "C05_found_exact_json",
+                          "C05_pipeline_per_function", "C05_pipeline_reports_indexed_function", "C05_topology_hash_does_not_determine_alerts"],
+    "level_text": "Kernel-checked: MatchSignature(t, IndexFunction(t)) has confidence exactly 1 for every topology, hash value and default tolerance, hence the indexed signature is reported by the alert pipeline of either backend at every threshold <= 1 and by JSON exact mode; the per-file scan pipeline (model of cli runScanParallel) reports for every function exactly the scanner's alerts for that function's own topology, whatever siblings the file holds and wherever they stand, and the topology hash provably does NOT determine the alerts (two same-hash topologies with other literals are answered differently), so nothing may be remembered under it. Tie: every variant file is also scanned through the real cli.RunScanParallel (both backends, full and exact) and every function must carry its alert; IndexFunction, GenerateTopologyHash (model SHA-256), GenerateFuzzyHash, MatchSignature differential; self-match evaluated on the real code for every generated topology; the concurrent stress of C11 (one writer, scanning goroutines, the writer scanning for what it has just written) is run for this property too: a scan that misses a signature whose add has returned breaks 'found again'.",
     "level_note": "PARTIAL: the SSA-extraction half (topology of a renamed/reformatted copy equals the original's) is a fact about go/ssa + ExtractTopology and is validated by differential runs on generated Go sources, not proved. Trusted: Lean kernel, SHA-256 model used only for equality, harness.",
     "partial": "name-independence of ExtractTopology is validated, not proved",
     "trusted_base": ["go/packages + go/ssa construction and topology.ExtractTopology are exercised, not modelled"],
@@ -153,7 +155,7 @@ PROPS["C10"] = {
                           "C10_sort_perm_invariant", "C10_slots_schedule_invariant", "C10_slot_content", "C10_old_key_not_total",
                           "C10_topology_hash_enumeration_invariant", "C10_topology_fingerprint_enumeration_invariant",
                           "C10_topology_fingerprint_needs_the_sort", "C10_topology_fingerprint_truncates"],
-    "level_text": "Kernel-checked, each for EVERY arrival order: the diff matcher's outcome (pairs, similarities, added, removed) is invariant under every permutation of the old and of the new function list (the Go maps' iteration order) for lists with distinct short names; scan's alert order (model of the less-function of RunScanLogic: a strict total order on the alert key, proved irreflexive/trichotomous/transitive) gives the same sorted list for any two permutations of the alerts, whereas the pre-fix key provably does not; check's index-addressed result slots end in the same array whatever order the workers finish in. Tie: the model is compared with the real ComputeDiff on generated pairs with tied candidates; and the real binary (built from the working tree) is run repeatedly at GOMAXPROCS 1, 2 and 16 on generated trees shaped to tie (identical shapes, identical short names across packages, a database indexed from the tree itself) for check, scan (Pebble, Pebble --exact, JSON) and diff; every stdout must be byte-identical.",
+    "level_text": "Kernel-checked, each for EVERY arrival order: the diff matcher's outcome (pairs, similarities, added, removed) is invariant under every permutation of the old and of the new function list (the Go maps' iteration order) for lists with distinct short names; scan's alert order (model of the less-function of RunScanLogic: a strict total order on the alert key, proved irreflexive/trichotomous/transitive) gives the same sorted list for any two permutations of the alerts, whereas the pre-fix key provably does not; check's index-addressed result slots end in the same array whatever order the workers finish in; the two strings the topology code derives by ranging over the CallSignatures MAP - the input of GenerateTopologyHash and the shape string TopologyFingerprint printed in every diff report - are the same for every enumeration order of the map (the unsorted variant is refuted). Tie: the real TopologyFingerprint of every function of every generated pair and of 300 synthetic topologies (0-12 calls, non-ASCII names) is compared with the model, and the report's old_topology / new_topology with the paired functions' topologies; the model is compared with the real ComputeDiff on generated pairs with tied candidates; and the real binary (built from the working tree) is run repeatedly at GOMAXPROCS 1, 2 and 16 on generated trees shaped to tie (identical shapes, identical short names across packages, a database indexed from the tree itself) for check, scan (Pebble, Pebble --exact, JSON) and diff; every stdout must be byte-identical.",
     "level_note": "PARTIAL: scheduling of the per-file goroutines and Go map iteration order are sampled by repetition (3 x 3 runs quick, 12 x 3 on three trees thorough), not enumerated; the theorem covers the matcher, the alert-sort and slot theorems cover scan/check ordering. Trusted: Lean kernel, go/packages load order.",
     "partial": "goroutine schedules and map orders are sampled by repeated runs",
     "trusted_base": ["Go runtime scheduler and map iteration (sampled)", "sort.SliceStable is a stable sort (modelled as mergeSort)"],
@@ -191,8 +193,9 @@ PROPS["C02"] = {
     "also": ["C01"],   # the shared canon correspondence suite tags its violations C01
     "suites": [{"name": "refactor", "quick": 8, "thorough": 60, "timeout": 3000}, {"name": "canon", "timeout": 3000},
                {"name": "ssasem", "quick": 4, "thorough": 30, "timeout": 3000}],
-    "lean_modules": ["SfwModel.Props.C02", "SfwModel.Props.C02Limits", "SfwModel.Props.C02Sem"],
-    "required_theorems": ["C02_default_policy_matches_source", "C02_self_reference_name_free", "C02_commutative_operands_exchange", "C02_noncommutative_keeps_order",
+    "lean_modules": ["SfwModel.Props.C02", "SfwModel.Props.C02Limits", "SfwModel.Props.C02Sem", "SfwModel.Props.C02Findings"],
+    "required_theorems": ["C02_loop_summary_constants_printed_verbatim", "C02_big_loop_bound_decides_the_text_counterexample", "C02_big_loop_step_decides_the_text_counterexample",
+                          "C02_default_policy_matches_source", "C02_self_reference_name_free", "C02_commutative_operands_exchange", "C02_noncommutative_keeps_order",
                           "C02_flip_decision", "C02_flip_meets", "C02_flip_idempotent", "C02_string_literals_abstracted",
                           "C02_big_int_literals_abstracted", "C02_small_range",
                           "C02_sem_flip_and_commute_are_cosmetic", "C02_sem_commuted_operands_same_value"],
